@@ -638,7 +638,10 @@ func Delete(ctx context.Context, scope *ReferenceScope, query parser.DeleteQuery
 	viewsToDelete := make(map[string]*View)
 	deletedIndices := make(map[string]map[int]bool)
 	for _, v := range query.Tables {
-		table := v.(parser.Table)
+		table, ok := v.(parser.Table)
+		if !ok {
+			return nil, nil, NewDeleteTableNotSpecifiedError(query)
+		}
 		tableName, err := ParseTableName(ctx, queryScope, table)
 		if err != nil {
 			return nil, nil, err
